@@ -77,6 +77,14 @@ NEW = (8, 10, 0, 4, 0, 4)
 SHCFG = {"grid": [3, 2, 1], "chunk": 4, "rem": [1, 1, 3]}
 
 
+def worker_init():
+    # environment variables that tools commonly honour are set (reproducible-build time
+    # stamp, a non-default locale): the guarantees do not depend on them
+    import os
+    os.environ.setdefault("SOURCE_DATE_EPOCH", "1700000000")
+    os.environ.setdefault("LC_ALL", "C")
+
+
 def gen_cases(tier, seed):
     cases = []
     for flat in (False, True):
